@@ -31,7 +31,7 @@ type c05Cfg struct {
 	Class    int  `json:"class"`    // 0 full samples, 1 metadata-only + data written separately, 2 sample intervals
 	Optimize bool `json:"optimize"` // OptimizeTrun
 	SW       bool `json:"sw"`       // EncodeSW instead of Encode
-	Extra    int  `json:"extra"`    // 0 none, 1 emsg (AddEmsg), 2 free after mdat, 3 unknown box in traf, 4 uuid(tfxd) in moof, 5 prft after mdat, 6 mdat with 64-bit header
+	Extra    int  `json:"extra"`    // 0 none, 1 emsg (AddEmsg), 2 free after mdat, 3 unknown box in traf, 4 uuid(tfxd) in moof, 5 prft after mdat, 6 mdat with 64-bit header, 7/8 non-zero trex defaults in the init segment
 }
 
 type c05History struct {
@@ -63,6 +63,8 @@ func c05Sample(kind int, size uint32) mp4.Sample {
 		return mp4.Sample{Dur: 1, Size: 1, Flags: mp4.SyncSampleFlags, CompositionTimeOffset: -0x80000000}
 	case 19:
 		return mp4.Sample{Dur: 0, Size: 1, Flags: mp4.NonSyncSampleFlags}
+	case 20: // every field zero: an explicitly coded 0 must win over non-zero trex defaults
+		return mp4.Sample{Dur: 0, Size: 0, Flags: 0}
 	}
 	s := mp4.Sample{Dur: uint32(1 + kind&1), Size: uint32(1 + (kind>>1)&1)}
 	if kind>>2&1 == 0 {
@@ -100,6 +102,16 @@ func c05Build(h *c05History) (*c05Built, error) {
 	}
 	for i := 0; i < b.NTracks; i++ {
 		b.Init.AddEmptyTrack(1000, "video", "und")
+	}
+	switch cfg.Extra {
+	case 7: // trex defaults that coincide with values some samples carry
+		for _, tx := range b.Init.Moov.Mvex.Trexs {
+			tx.DefaultSampleDuration, tx.DefaultSampleSize, tx.DefaultSampleFlags = 2, 2, mp4.NonSyncSampleFlags
+		}
+	case 8: // trex defaults that no sample carries
+		for _, tx := range b.Init.Moov.Mvex.Trexs {
+			tx.DefaultSampleDuration, tx.DefaultSampleSize, tx.DefaultSampleFlags = 7, 9, 0x00a50000
+		}
 	}
 	b.Seg = mp4.NewMediaSegment()
 	if cfg.Optimize {
@@ -440,7 +452,7 @@ func c05Configs(full bool) []c05Cfg {
 				for _, sw := range []bool{false, true} {
 					extras := []int{0}
 					if full {
-						extras = []int{0, 1, 2, 3, 4, 5, 6}
+						extras = []int{0, 1, 2, 3, 4, 5, 6, 7, 8}
 					}
 					for _, ex := range extras {
 						out = append(out, c05Cfg{Multi: multi, Class: class, Optimize: opt, SW: sw, Extra: ex})
@@ -461,8 +473,8 @@ func runC05(c *vf.Ctx) {
 	} else {
 		c.SetBudget(4 * 60 * 1e9)
 	}
-	allKinds := []int{0, 1, 2, 3, 4, 5, 6, 7, 8, 9, 10, 11, 12, 13, 14, 15, 16, 17, 18, 19}
-	c.Rule = "explicit enumeration (DFS, every prefix checked) of all operation histories on a real MediaSegment: op = add sample (16 kinds = dur{1,2} x size{1,2} x {sync,non-sync} x cto{0,-1}, plus 4 boundary kinds: dur 2^31 / 2^32-1 / 0, cto +-2^31) to track t in {1} or {1,2,3} through each API variant of the data class (full: AddFullSample/AddFullSampleToTrack; metadata-only + separately written data: AddSample/AddSampleToTrack/AddSamples; intervals: AddSampleInterval), or start a new fragment (<= 2 fragments); configurations = {single, multi-track} x data class x OptimizeTrun on/off x Encode/EncodeSW x extra {none, emsg, free, unknown-in-traf, uuid-in-moof, prft, 64-bit mdat header}. Each history is encoded, decoded by both decoders (GetFullSamples per track) and by an independent fragment reader, and compared with the added samples. Distinct = distinct encoded byte strings."
+	allKinds := []int{0, 1, 2, 3, 4, 5, 6, 7, 8, 9, 10, 11, 12, 13, 14, 15, 16, 17, 18, 19, 20}
+	c.Rule = "explicit enumeration (DFS, every prefix checked) of all operation histories on a real MediaSegment: op = add sample (16 kinds = dur{1,2} x size{1,2} x {sync,non-sync} x cto{0,-1}, plus 5 boundary kinds: dur 2^31 / 2^32-1 / 0, cto +-2^31, all fields 0) to track t in {1} or {1,2,3} through each API variant of the data class (full: AddFullSample/AddFullSampleToTrack; metadata-only + separately written data: AddSample/AddSampleToTrack/AddSamples; intervals: AddSampleInterval), or start a new fragment (<= 2 fragments); configurations = {single, multi-track} x data class x OptimizeTrun on/off x Encode/EncodeSW x extra {none, emsg, free, unknown-in-traf, uuid-in-moof, prft, 64-bit mdat header, two sets of non-zero trex defaults in the init segment}. Each history is encoded, decoded by both decoders (GetFullSamples per track) and by an independent fragment reader, and compared with the added samples. Distinct = distinct encoded byte strings."
 	type job struct {
 		cfg   c05Cfg
 		depth int
@@ -473,7 +485,7 @@ func runC05(c *vf.Ctx) {
 	if !thorough {
 		baseKinds = []int{0, 3, 5, 6, 9, 10, 12, 15} // each of the four attributes takes both values, all pairs covered
 	}
-	c.Bound = fmt.Sprintf("all histories of length <= %d over 20 sample kinds (16 small-value kinds + 4 with 32-bit boundary durations / composition offsets) under all %d configurations (incl. extra boxes) and of length <= %d over %d sample kinds under the %d base configurations (no extra box)", depthAll, len(c05Configs(true)), depthBase, len(baseKinds), len(c05Configs(false)))
+	c.Bound = fmt.Sprintf("all histories of length <= %d over 21 sample kinds (16 small-value kinds + 5 with 32-bit boundary durations / composition offsets / all-zero fields) under all %d configurations (incl. extra boxes) and of length <= %d over %d sample kinds under the %d base configurations (no extra box)", depthAll, len(c05Configs(true)), depthBase, len(baseKinds), len(c05Configs(false)))
 	var jobs []job
 	for _, cfg := range c05Configs(true) {
 		for sh := -1; sh < c05NrShards(cfg, allKinds); sh++ {
